@@ -42,6 +42,9 @@ def run(chk, program, tier):
                  ('WF-CSUM', 'checksum position, coverage, reduction'), ('WF-LINE', 'Yacht Devices line shape'), ('WF-ACT', 'Actisense token layout'), ('ID-USE', 'writers build the identifier of the message they write'), ('FP-LEN', 'fast-packet frames have 1..8 bytes'), ('FP-COUNT', 'frames carry the payload once, in order'), ('FP-HDR', 'frame header bytes'), ('FP-SEQ', 'sequence counter'), ('SER-DELIVER', 'serial receive path hands every complete 20-byte window to the decoder'),
                  ('BUF-PROGRESS', 'serial receive path removes exactly the processed window'), ('SER-CONST', 'serial marker / length constants agree with the encoder')):
         chk.rule(r, t)
+    # the identifier each writer puts on the wire is that of the message being written (C05 ID-USE)
+    from . import c05
+    c05.id_use(chk, program)
     feas = feasible_lengths(program)
     chk.unit('feasible_data_lengths', feas)
     bad13 = None
@@ -158,9 +161,6 @@ def run(chk, program, tier):
         chk.check(isinstance(data, A.ABytes) and data.items == list(reversed(payload.items)), 'WF-ACT', f"actisense::payload@L={L}", file=DEC, line=0,
                   expected='payload bytes (reversed for the shared decode path)', found=f"{len(data.items) if isinstance(data, A.ABytes) else data!r} bytes")
     chk.floor('lengths', len(feas), 7)
-    # the identifier each writer puts on the wire is that of the message being written (C05 ID-USE)
-    from . import c05
-    c05.id_use(chk, program)
     # the frames the fast-packet segmenter hands to the writers (C03 FP-LEN / FP-COUNT / FP-HDR on a reduced sweep: lengths 0..30 and the 7-multiples)
     from . import c03
     c03.segmenter_sweep(chk, program, sorted(set(list(range(0, 31)) + [34, 35, 41, 42, 62, 63, 216, 217, 222, 223])), (0, 5))
